@@ -14,6 +14,7 @@ VERIF_FAIL = [
     r"possible overflow", r"possible underflow", r"index out of bounds", r"possible (negative|out of range)",
     r"assert_by_compute", r"failed proof", r"bit.?vector", r"nonlinear", r"expression simplifies to",
 ]
+TOOLING = [r"not supported", r"unsupported", r"not yet support", r"Verus does not", r"internal error", r"cannot find", r"expected .* found", r"mismatched types"]
 UNDECIDED = [r"[Rr]esource limit", r"rlimit", r"timed? ?out", r"solver (gave up|canceled|unknown)", r"incomplete"]
 
 class UnitResult:
@@ -64,6 +65,8 @@ def classify(e):
     msg = e["msg"]
     if e["code"]:
         return "tool"
+    for p in TOOLING:
+        if re.search(p, msg): return "tool"
     for p in UNDECIDED:
         if re.search(p, msg): return "undecided"
     for p in VERIF_FAIL:
